@@ -614,6 +614,11 @@ func dmLookups() {
 // writer's output at 0x0 must have exactly the size of the first admissible row.
 func dmWriterOne(l *mc.Local, c dmCase) {
 	content := strings.Repeat("42", c.N)
+	if c.Family == "macro05" || c.Family == "macro06" {
+		// a macro envelope costs ONE codeword for its nine header and trailer characters: N codewords
+		// hold the envelope and 2(N-1) digits - more characters per codeword than any plain text
+		content = "[)>\x1e" + c.Family[5:] + "\x1d" + strings.Repeat("42", c.N-1) + "\x1e\x04"
+	}
 	hints := map[gozxing.EncodeHintType]interface{}{}
 	if c.Shape != 0 || c.Family == "explicit-shape" {
 		hints[gozxing.EncodeHintType_DATA_MATRIX_SHAPE] = shapes[c.Shape]
@@ -693,8 +698,27 @@ func dmWriter() {
 			}
 		}
 	}
+	// macro envelopes with digit bodies: every codeword count 2..1559 without hints, and the
+	// capacity boundaries under every shape hint
+	for _, fam := range []string{"macro05", "macro06"} {
+		for n := 2; n <= 1559; n++ {
+			if chk.Quick() && n > 60 && n%7 != 0 {
+				continue
+			}
+			cases = append(cases, dmCase{Kind: "dm-writer", N: n, Shape: 0, Min: nilD, Max: nilD, Family: fam})
+		}
+		for s := range shapes {
+			for _, sym := range dm.Symbols {
+				for _, n := range []int{sym.DataCW - 1, sym.DataCW, sym.DataCW + 1} {
+					if n >= 2 {
+						cases = append(cases, dmCase{Kind: "dm-writer", N: n, Shape: s, Min: nilD, Max: nilD, Family: fam})
+					}
+				}
+			}
+		}
+	}
 	sort.SliceStable(cases, func(a, b int) bool { return cases[a].N > cases[b].N })
-	runDM(fmt.Sprintf("DM writer with hints: %d codeword counts (%s) x 3 shapes x {(min,nil),(nil,max) over 36 sizes, none}", len(ns),
+	runDM(fmt.Sprintf("DM writer with hints (and macro 05/06 envelopes around digit bodies, one codeword for the envelope): %d codeword counts (%s) x 3 shapes x {(min,nil),(nil,max) over 36 sizes, none}", len(ns),
 		map[bool]string{true: "1 and cap(row), cap(row)+1 of all 30 rows", false: "every n = 1..1559"}[chk.Quick()]), cases, 16)
 	// (c) both bounds: all (min,max) pairs over the symbol sizes at the capacity boundaries of the
 	// rows (quick: shape none only and max >= min componentwise or either nil)
